@@ -40,7 +40,7 @@ class Gen:
         self.conds.append('bool')
         return ('b', len(self.conds) - 1)
 
-    def stmts(self, depth, loops, labels, loop_labels, n):
+    def stmts(self, depth, loops, labels, loop_labels, n, ub=True):
         out = []
         ndef = 0
         for _ in range(n):
@@ -53,20 +53,26 @@ class Gen:
                 lab = None
                 if self.r.random() < 0.6:
                     self.nlab += 1; lab = 'b%d' % self.nlab
-                out.append(('block', lab, self.stmts(depth - 1, loops, labels + ([lab] if lab else []), loop_labels, self.r.randint(1, 4))))
-            elif c < 0.70 and depth > 0:
+                out.append(('block', lab, self.stmts(depth - 1, loops, labels + ([lab] if lab else []), loop_labels, self.r.randint(1, 4), True if lab else ub)))
+            elif c < 0.60 and depth > 0:
+                # a labeled block used as a value of type ?void: `r : ?void = `v1: { .. break `v1 nil; .. };`
+                self.nlab += 1; lab = 'v%d' % self.nlab
+                out.append(('vblock', lab, self.stmts(depth - 1, [], labels + [lab], [], self.r.randint(1, 4), False)))
+            elif c < 0.72 and depth > 0:
                 lab = None
                 if self.r.random() < 0.5:
                     self.nlab += 1; lab = 'l%d' % self.nlab
                 self.nctr += 1; ctr = 'i%d' % self.nctr
                 out.append(('loop', lab, ctr, self.stmts(depth - 1, loops + [ctr], labels + ([lab] if lab else []),
-                                                       loop_labels + ([lab] if lab else []), self.r.randint(1, 4))))
+                                                       loop_labels + ([lab] if lab else []), self.r.randint(1, 4), True)))
             elif len(self.conds) < 6:
                 kinds = ['return']
-                if loops or labels:
+                # an unlabeled break targets the innermost loop or labeled block; when that is a ?void value block it would
+                # need a value, so it is only generated when the innermost target is a loop or a plain labeled block
+                if ub and (loops or [l for l in labels if l and not l.startswith('v')]):
                     kinds += ['break']
                 if loops:
-                    kinds += ['continue', 'continue', 'break']
+                    kinds += ['continue', 'continue'] + (['break'] if ub else [])
                 if labels:
                     kinds += ['breaklab', 'breaklab']
                 if loop_labels:
@@ -106,6 +112,8 @@ def emit(name, body, conds, with_try):
             elif t == 'mark': lines.append('%smark(%d);' % (pad, s[1]))
             elif t == 'block':
                 lines.append(pad + ('`%s: ' % s[1] if s[1] else '') + '{'); go(s[2], ind + 1); lines.append(pad + '}')
+            elif t == 'vblock':
+                lines.append('%sr_%s : ?void = `%s: {' % (pad, s[1], s[1])); go(s[2], ind + 1); lines.append(pad + '};')
             elif t == 'loop':
                 lines.append('%s%s : u8 = 0;' % (pad, s[2]))
                 lines.append(pad + ('`%s: ' % s[1] if s[1] else '') + 'while %s < %d {' % (s[2], LOOP_ITERS))
@@ -113,13 +121,15 @@ def emit(name, body, conds, with_try):
                 go(s[3], ind + 1); lines.append(pad + '}')
             elif t == 'if':
                 lines.append('%sif %s {' % (pad, guard_src(s[1]))); go(s[2], ind + 1); lines.append(pad + '}')
-            elif t == 'break': lines.append(pad + 'break' + (' `%s' % s[1] if s[1] else '') + ';')
+            elif t == 'break': lines.append(pad + 'break' + (' `%s' % s[1] if s[1] else '') + (' nil' if s[1] and s[1].startswith('v') else '') + ';')
             elif t == 'continue': lines.append(pad + 'continue' + (' `%s' % s[1] if s[1] else '') + ';')
             elif t == 'return': lines.append(pad + ('return nil;' if with_try else 'return;'))
             elif t == 'try':
                 lines.append('%sopt(%s).try;' % (pad, guard_src(s[1])))
     go(body, 1)
     params = ', '.join('c%d: %s' % (i, t) for i, t in enumerate(conds))
+    if with_try == 'void':
+        return '%s :: (%s) -> ?void {\n%s\n}\n' % (name, params, '\n'.join(lines))
     if with_try:
         return '%s :: (%s) -> ?u64 {\n%s\n    7\n}\n' % (name, params, '\n'.join(lines))
     return '%s :: (%s) {\n%s\n}\n' % (name, params, '\n'.join(lines))
@@ -151,7 +161,7 @@ def ref_trace(body, assign, cond_types):
                 t = s[0]
                 if t == 'defer': defers.append(s[1])
                 elif t == 'mark': trace.append(s[1])
-                elif t == 'block':
+                elif t in ('block', 'vblock'):
                     try:
                         run_block(s[2])
                     except Jump as j:
@@ -224,7 +234,7 @@ def features(body, assign, cond_types):
             t = s[0]
             if t == 'defer':
                 pending_here = True
-            elif t in ('block',):
+            elif t in ('block', 'vblock'):
                 walk(s[2], in_loop, False, pending_outer_of_loop or (pending_here and in_loop))
             elif t == 'loop':
                 walk(s[3], True, False, False)
@@ -253,7 +263,7 @@ def run(chk, tier, seed):
     attempts = 0
     while len(progs) < nprog and attempts < nprog * 20:
         attempts += 1
-        with_try = rnd.random() < 0.3
+        with_try = rnd.choice([False, False, True, 'void'])
         g = Gen(rnd, depth, maxdef, with_try)
         body = g.stmts(depth, [], [], [], rnd.randint(2, 5))
         if not g.conds or g.k < 2:
@@ -374,6 +384,9 @@ def curated():
     P.append(('k_break_loop_in_block', [('block', None, [('defer', 1), ('loop', None, 'i1', [('if', ('b', 0), [('break', None)]), ('mark', 3)]), ('mark', 4)]), ('mark', 5)], ['bool'], False))
     P.append(('k_try', [('defer', 1), ('block', None, [('defer', 2), ('try', ('b', 0)), ('mark', 3)]), ('mark', 4)], ['bool'], True))
     P.append(('k_return_nested', [('defer', 1), ('block', 'a', [('defer', 2), ('loop', 'l', 'i1', [('defer', 3), ('if', ('b', 0), [('return',)])])])], ['bool'], False))
+    P.append(('k_optvoid_fn', [('defer', 1), ('if', ('b', 0), [('return',)]), ('defer', 2), ('mark', 3)], ['bool'], 'void'))
+    P.append(('k_optvoid_try', [('defer', 1), ('try', ('b', 0)), ('defer', 2), ('mark', 3)], ['bool'], 'void'))
+    P.append(('k_optvoid_block', [('defer', 1), ('loop', None, 'i1', [('defer', 2), ('vblock', 'v1', [('defer', 3), ('if', ('it', 0, 'i1'), [('break', 'v1')]), ('defer', 4), ('mark', 5)])])], ['u8'], False))
     P.append(('k_continue_lab', [('loop', 'o', 'i1', [('defer', 1), ('loop', None, 'i2', [('defer', 2), ('if', ('b', 0), [('continue', 'o')]), ('mark', 3)])])], ['bool'], False))
     return P
 
